@@ -108,6 +108,8 @@ class Explorer:
         self.invariants = invariants
         self.types = TypeParser(index, ['fpy2.number', 'fpy2.utils', 'fpy2', 'fpy2.ast', 'fpy2.analysis',
                                         'fpy2.transform.path', 'fpy2.transform.cursor', 'fpy2.transform.error'])
+        # stand-in classes for external objects (Python ast nodes) live in spec modules; searched last
+        self.types.default_modules += [m for m in ('spec.c06',) if index.module(m) is not None]
         self.intrinsics = Intrinsics(self)
         self.global_cache = {}
         self.tags = Tags()
@@ -168,7 +170,16 @@ class Explorer:
         raise Unsupported('hash() of builtin value (use a contract with the hash model)')
 
     def frac_part(self, P, v, attr):
-        raise Unsupported('numerator/denominator of symbolic Fraction')
+        """numerator / denominator of a symbolic Fraction v: integers n, d with d >= 1 and v == n/d
+        (one pair per term and path; lowest terms are NOT modelled, stated in the C06 contract notes)"""
+        memo = P.__dict__.setdefault('_fracparts', {})
+        key = v.get_id()
+        if key not in memo:
+            base = v.decl().name() if z3.is_const(v) else P.fresh_name('frac')
+            n, d = z3.Int(base + '#num'), z3.Int(base + '#den')
+            P.assume(z3.And(d >= 1, z3.ToReal(n) == v * z3.ToReal(d)), fact=True)
+            memo[key] = (n, d, v)
+        return memo[key][0 if attr == 'numerator' else 1]
 
     def external_contract(self, name):
         return self.externals.get(name)
@@ -278,8 +289,15 @@ class Explorer:
                 obj.fields[f] = Lazy(ft, f'{nm}.{f}')
             result = obj
         else:
-            rt = self.types.parse_str(c.returns, info.module.name, info.cls)
-            result = P.fresh(rt, P.fresh_name(short))
+            ri = c.opts.get('result_is')
+            if ri:
+                # (trusted contracts only) the result IS the object at this path of the arguments, e.g. a ghost field
+                if not c.trusted:
+                    raise InterpError('option result_is is only allowed on trusted contracts')
+                result = self._resolve_path(P, bound, ri)
+            else:
+                rt = self.types.parse_str(c.returns, info.module.name, info.cls)
+                result = P.fresh(rt, P.fresh_name(short))
         if c.post is not None:
             extra = {'result': result}
             if needs_old:
@@ -551,6 +569,8 @@ class Explorer:
                             continue
                         if seqs.forced_from(cv, pv.name):
                             continue
+                        if type(cv).__name__ == 'SymStr' and cv.name == pv.name:
+                            continue      # symbolic numeral string forced from this lazy (immutable)
                         P.oblige(f'{c.short}#frame[{pth}]', 'frame', False)
                         continue
                     if cv is pv:
@@ -729,18 +749,19 @@ class Explorer:
                 else:
                     # 1. proof attempt (z3)  2. quick bounded refutation  3. cvc5 / z3-retry  4. wider refutation
                     st, secs, backend, smt2 = self._discharge(ob.pc, ob.goal, fallback=False)
-                    if st != 'unsat' and self.refute_bound:
+                    rb = c.opts.get('refute_bound', self.refute_bound)      # per-contract refutation boxes (optional)
+                    if st != 'unsat' and rb:
                         tr = time.time()
-                        cex, rstatus = self.refute(P, c, ob, self.refute_bound[:1], self.refute_quick_ms)
+                        cex, rstatus = self.refute(P, c, ob, rb[:1], c.opts.get('refute_quick_ms', self.refute_quick_ms))
                         secs += time.time() - tr
                     if st != 'unsat' and cex is None:
                         st2, secs2, backend2, smt2b = self._discharge(ob.pc, ob.goal, fallback=True, skip_first=True, smt2=smt2)
                         secs += secs2
                         if st2 == 'unsat':
                             st, backend = st2, backend2
-                        elif self.refute_bound[1:]:
+                        elif rb[1:]:
                             tr = time.time()
-                            cex, rstatus = self.refute(P, c, ob, self.refute_bound[1:], self.refute_timeout_ms)
+                            cex, rstatus = self.refute(P, c, ob, rb[1:], self.refute_timeout_ms)
                             secs += time.time() - tr
                         bf = c.opts.get('bounded_fallback')
                         if st != 'unsat' and cex is None and bf:
